@@ -905,3 +905,65 @@ Proof. intros H1 H2. rewrite session_posts_one_day by assumption. reflexivity. Q
 Lemma clock_lines_resolve_alike_lemma :
   src_clock_in_root = RootTopAccount /\ src_clock_out_root = RootTopAccount.
 Proof. split; reflexivity. Qed.
+
+(* ------------------------------------------------------------------ reported time: unreduce *)
+From LedgerV Require Import Gen.UnreduceWalk.
+Local Open Scope Q_scope.
+
+Definition prod_factors (l : list (str * Q)) : Q := fold_right (fun x a => snd x * a) 1 l.
+
+Lemma last_cons {A} (t : list A) : forall (a d : A), last (a :: t) d = last t a.
+Proof.
+  induction t as [|b t IH]; intros a d; [reflexivity|].
+  change (last (a :: b :: t) d) with (last (b :: t) d). rewrite (IH b d), (IH b a). reflexivity.
+Qed.
+
+Lemma unreduce_walk_keeps_one chain : forall lab q,
+  at_least_one q = true -> at_least_one (snd (unreduce_walk chain lab q)) = true.
+Proof.
+  induction chain as [|[l f] r IH]; intros lab q H; cbn [unreduce_walk]; [exact H|].
+  destruct (at_least_one (Qred (q / f))) eqn:E; [apply IH; exact E | exact H].
+Qed.
+
+(* either no step is taken or the quantity shown is at least 1 in absolute value *)
+Lemma unreduce_walk_moved chain lab q :
+  unreduce_walk chain lab q = (lab, q) \/ at_least_one (snd (unreduce_walk chain lab q)) = true.
+Proof.
+  destruct chain as [|[l f] r]; cbn [unreduce_walk]; [left; reflexivity|].
+  destruct (at_least_one (Qred (q / f))) eqn:E; [right; apply unreduce_walk_keeps_one; exact E | left; reflexivity].
+Qed.
+
+(* the walk stops after k units; the quantity shown, times the factors walked, is the quantity in
+   the amount's own unit - exactly; one more step would have brought it below 1 *)
+Lemma unreduce_walk_exact chain : forall lab q,
+  Forall (fun x => ~ snd x == 0) chain ->
+  exists k, (k <= length chain)%nat /\
+    snd (unreduce_walk chain lab q) * prod_factors (firstn k chain) == q /\
+    fst (unreduce_walk chain lab q) = last (map fst (firstn k chain)) lab /\
+    (forall x, nth_error chain k = Some x ->
+       at_least_one (Qred (snd (unreduce_walk chain lab q) / snd x)) = false).
+Proof.
+  induction chain as [|[l f] r IH]; intros lab q Hnz.
+  - exists 0%nat. cbn. repeat split; try lia; try ring.
+    intros x Hx. discriminate.
+  - inversion Hnz as [|? ? Hf Hr]; subst. cbn [snd] in Hf. cbn [unreduce_walk].
+    destruct (at_least_one (Qred (q / f))) eqn:E.
+    + destruct (IH l (Qred (q / f)) Hr) as (k & Hk & Hq & Hl & Hstop).
+      exists (S k). cbn [length firstn map prod_factors fold_right snd fst]. repeat split.
+      * lia.
+      * fold (prod_factors (firstn k r)).
+        assert (Hq' : snd (unreduce_walk r l (Qred (q / f))) * prod_factors (firstn k r) == q / f)
+          by (rewrite Hq; apply Qred_correct).
+        setoid_replace (snd (unreduce_walk r l (Qred (q / f))) * (f * prod_factors (firstn k r)))
+          with ((snd (unreduce_walk r l (Qred (q / f))) * prod_factors (firstn k r)) * f) by ring.
+        rewrite Hq'. field. exact Hf.
+      * rewrite last_cons. exact Hl.
+      * intros x Hx. cbn [nth_error] in Hx. apply Hstop. exact Hx.
+    + exists 0%nat. cbn [firstn map prod_factors fold_right last fst snd length]. repeat split.
+      * lia.
+      * ring.
+      * intros x Hx. cbn [nth_error] in Hx. injection Hx as <-. cbn [snd]. exact E.
+Qed.
+
+Lemma unreduce_divides_by_next_factor_lemma : src_unreduce_divisor = DivCursorLarger.
+Proof. reflexivity. Qed.
